@@ -315,6 +315,9 @@ impl Base {
             goal_balls: vec![self.goal_ball.clone()],
             goal_samples: self.goal_samples.clone(),
             goal_root: 0,
+            extra_starts: vec![],
+            goal_fail_at: None,
+            goal_fail_from: None,
             params,
             tag: tag.into(),
         }
